@@ -634,6 +634,87 @@ fn random_history<T: Elem>(seed: u64, idx: u64, len: usize, rep: &mut Report) {
     }
 }
 
+/// Insertion through the state-level helpers (`HasStack::with_push` / `with_replace`,
+/// `PushOnto::push_onto` / `replace_on`, `StackPush::with_stack_push`): whatever the route, a
+/// *successful* insertion leaves the stack within its current maximum - also when that maximum
+/// was lowered after the stack was filled - holding exactly the old contents minus what was to
+/// be replaced plus the new value; a failure is Overflow or Underflow. (What a failed
+/// `with_replace` leaves behind is not judged here: it discards before it pushes.)
+fn drain_ints(st: &push::push_vm::push_state::PushState) -> Vec<i64> {
+    use push::push_vm::stack::HasStack;
+    let mut c = st.stack::<i64>().clone();
+    let mut out = Vec::with_capacity(c.size());
+    while let Ok(x) = c.pop() {
+        out.push(x);
+    }
+    out.reverse();
+    out
+}
+
+fn state_level_insertions(seed: u64, rounds: usize, rep: &mut Report) {
+    use push::push_vm::{push_state::PushState, stack::{HasStack, PushOnto, StackPush}};
+    use push::{error::InstructionResult, instruction::instruction_error::PushInstructionError};
+    let mut g = Xo::derive(seed, "C04-state-level", 0);
+    for _ in 0..rounds {
+        let filled = g.usize_below(7);
+        let cap0 = filled + g.usize_below(3);
+        let cap1 = g.usize_below(filled + 3); // the maximum afterwards: below, at or above the fill
+        let vals: Vec<i64> = (0..filled as i64).map(|i| 100 + i).collect(); // bottom first
+        let n = g.usize_below(4);
+        let route = g.below(5);
+        let make = || -> Option<PushState> {
+            // the builder takes the values top first
+            let mut st = PushState::builder().with_max_stack_size(cap0.max(1)).with_no_program().with_int_values(vals.iter().rev().copied()).ok()?.with_instruction_step_limit(10).build();
+            st.stack_mut::<i64>().set_max_stack_size(cap1);
+            Some(st)
+        };
+        let Some(st) = make() else { continue };
+        let before: Vec<i64> = drain_ints(&st);
+        let r = catch(|| -> Result<PushState, String> {
+            let res: InstructionResult<PushState, PushInstructionError> = match route {
+                0 => st.with_push(7i64).map_err(|e| e.map_inner_err(Into::into)),
+                1 => st.with_replace(n, 7i64).map_err(|e| e.map_inner_err(Into::into)),
+                2 => Ok::<i64, StackError>(7).push_onto(st),
+                3 => Ok::<i64, StackError>(7).replace_on(n, st),
+                _ => Ok::<PushState, push::error::Error<PushState, PushInstructionError>>(st).with_stack_push(7i64),
+            };
+            res.map_err(|e| format!("{:?}", e.error()))
+        });
+        rep.eval();
+        let route_name = ["HasStack::with_push", "HasStack::with_replace", "PushOnto::push_onto", "PushOnto::replace_on", "StackPush::with_stack_push"][route as usize];
+        rep.count(&format!("state-level:{route_name}"));
+        rep.distinct(mix(fnv(route_name.as_bytes()), ((filled * 64 + cap1) * 8 + n) as u64));
+        let replaces = if route == 1 || route == 3 { n } else { 0 };
+        let problem = match &r {
+            Err(p) => Some(format!("panic: {p}")),
+            Ok(Ok(after)) => {
+                let now: Vec<i64> = drain_ints(after);
+                let max = after.stack::<i64>().max_stack_size();
+                let mut want = before.clone();
+                if replaces > want.len() {
+                    Some(format!("replacing {replaces} of {} values succeeded", want.len()))
+                } else {
+                    want.truncate(want.len() - replaces);
+                    want.push(7);
+                    if now.len() > max {
+                        Some(format!("the insertion succeeded and left {} values on a stack whose maximum is {max}", now.len()))
+                    } else if now != want {
+                        Some(format!("contents bottom-first {now:?}, expected {want:?}"))
+                    } else if max != cap1 {
+                        Some(format!("the maximum changed from {cap1} to {max}"))
+                    } else {
+                        None
+                    }
+                }
+            }
+            Ok(Err(text)) => (!(text.contains("Overflow") || text.contains("Underflow"))).then(|| format!("an error other than Overflow / Underflow: {text}")),
+        };
+        if let Some(why) = problem {
+            rep.violation(format!("C04/state-level/{route_name}"), || json!({"route": route_name, "contents_bottom_first": before, "maximum_when_filled": cap0.max(1), "maximum_afterwards": cap1, "values_to_replace": replaces, "why": why}));
+        }
+    }
+}
+
 pub fn run(args: &Args) -> i32 {
     let alpha = alphabet();
     let max_depth = args.tier.pick(5, 6);
@@ -683,6 +764,7 @@ pub fn run(args: &Args) -> i32 {
             rep.violation("C04/default-stack", || json!({"empty_unbounded_when_fresh": fresh_ok, "accepts_5000_pushes": grows, "max_stack_size": s.max_stack_size().to_string()}));
         }
     }
+    state_level_insertions(args.seed, args.tier.pick(200_000, 2_000_000), &mut rep);
     // random long histories, two element types
     let n_hist = args.tier.pick(64, 1024);
     let len = 10_000;
